@@ -795,7 +795,7 @@ void Net::helperInput(Proc *p)
         ++p->requestsSeen;
         if (p->name == "unlinkd") {
             int r = __real_unlink(line.c_str());
-            hist("FILE\tunlinkd\t%s\t-\t-\t%d", line.c_str(), r);
+            hist("FILE\tunlinkd\t%s\t-\t-\t%d", line.compare(0, g_scn.rundir.size(), g_scn.rundir) == 0 ? line.c_str() + g_scn.rundir.size() : line.c_str(), r);
             Step st; st.kind = ST_SEND; st.data = "OK\n"; st.seg = SEG_WHOLE; peerSend(c, st);
             continue;
         }
